@@ -6,6 +6,8 @@ open Neutrino.Lockset
 #print axioms C18_lockset_counterexample
 #print axioms C18_lockset_statement_false
 #print axioms C18_caller_holds
+#print axioms C18_no_foreign_unlock
+#print axioms C18_caller_holds_minimal
 #print axioms C18_callbacks_reviewed
 #print axioms C18_ordered_used
 #print axioms C18_no_reentrant_lock
